@@ -789,6 +789,39 @@ def r12(k: Kit) -> None:
     rep.floor('C18.R12', 'shallow copies of the options', shallow, 1)
 
 
+def r13(k: Kit) -> None:
+    """A jump host is resolved like any other target."""
+    rep = k.rep
+    idx = k.idx
+    rep.rule('C18.R13', 'connection._open_tunnel: the connect() of each hop '
+             'passes tunnel=<previous hop> and, for the first hop where '
+             'there is none, the "not given" value () - evaluated with '
+             'conn = None the argument is (), not None, which would mean '
+             '"explicitly no tunnel" and make the Host block of the jump '
+             'host lose its own ProxyJump')
+    fi = k.func('connection._open_tunnel')
+    calls = [(nd, c) for nd, c in k.calls_named(fi, 'connect')]
+    rep.floor('C18.R13', 'per-hop connects', len(calls), 1)
+    for nd, c in calls:
+        tv = [kw.value for kw in c.keywords if kw.arg == 'tunnel']
+        got = 'missing'
+        if tv:
+            try:
+                o = evaluate(idx, fi.module,
+                             [ast.Return(value=tv[0])], {}, {'conn': None},
+                             lambda a, b, e: Obj('x'))
+                got = o.value
+            except NotEvaluable as exc:
+                got = f'not evaluable: {exc}'
+        rep.check(got == (), 'C18.R13',
+                  key(fi, 'first hop leaves the tunnel to the config'),
+                  'tunnel argument is () when there is no previous hop',
+                  f'with no previous hop the tunnel argument is {got!r}: '
+                  'target -> jump1 and jump1 -> bastion configured, the '
+                  'connection to jump1 bypasses the bastion (2 SSH '
+                  'connections instead of 3)', k.loc(fi, nd))
+
+
 def run(idx, rep, tier):
     k = Kit(idx, rep)
     rep.assumptions += NOT_DECIDED
@@ -809,6 +842,7 @@ def run(idx, rep, tier):
     r10(k)
     r11(k)
     r12(k)
+    r13(k)
     # C18.R7: Host lines and Match criteria are pattern lists: their
     # semantics (some positive pattern matches, no negated one does - a list
     # of negations alone matches nothing) and the wildcard rules are C17.R1
